@@ -1,17 +1,12 @@
 package interp
 
 import (
-	"math/big"
-	"os"
-	"bufio"
 	"fmt"
 	"go/token"
 	"go/types"
-	"io"
-	"os/exec"
+	"math/big"
 	"strconv"
 	"strings"
-	"time"
 )
 
 // Sym is a symbolic value: an SMT-LIB term of the given sort.
@@ -23,6 +18,12 @@ type Sym struct {
 	// is encoded as a case-folded regular-expression membership instead).
 	LowerOf *Sym
 	MaxLen  int // known upper bound on the length of a string term (0 = unknown)
+	// interval of an Int term, maintained by interval arithmetic; used to
+	// detect that a machine integer could leave its type's range (the path is
+	// then inconclusive: mathematical integers must not stand in for words
+	// that wrap).
+	Lo, Hi  int64
+	Bounded bool
 }
 
 func isSym(v value) bool { _, ok := v.(*Sym); return ok }
@@ -190,26 +191,20 @@ func concretizeInt(t types.Type, v value) value {
 		return v
 	}
 	for n := 0; n < 64; n++ {
-		r, m := X.query("", false)
-		_ = m
-		if r != "sat" {
-			panic(pathAbort{"no value left"})
-		}
 		X.S.send("(push)")
-		X.S.Check()
-		out := X.S.GetValue([]string{s.T})
-		X.S.send("(pop)")
-		// parse "((term value))"
-		out = strings.TrimSpace(out)
-		i := strings.LastIndex(out[:len(out)-2], " ")
-		lit := strings.Trim(out[i+1:len(out)-2], "() ")
-		neg := strings.HasPrefix(out[i-2:], "(- ") || strings.Contains(out[len(s.T)+2:], "(-")
-		k, err := strconv.ParseInt(strings.TrimPrefix(lit, "- "), 10, 64)
-		if err != nil {
-			panic(unsupported{"cannot parse model value " + out})
+		r := X.S.Check()
+		if r != "sat" {
+			X.S.send("(pop)")
+			if r == "unsat" {
+				panic(pathAbort{"no value left"})
+			}
+			panic(unsupported{"solver answered unknown while enumerating values"})
 		}
-		if neg {
-			k = -k
+		m := parseModel(X.S.GetValue([]string{s.T}), []string{s.T})
+		X.S.send("(pop)")
+		k, err := strconv.ParseInt(m[s.T], 10, 64)
+		if err != nil {
+			panic(unsupported{"cannot parse model value " + m[s.T]})
 		}
 		if X.decide(&Sym{Sort: "Bool", T: "(= " + s.T + " " + intLit(k) + ")"}) {
 			return conv(t, types.Typ[types.Int64], k)
@@ -248,263 +243,6 @@ func concretizeIndex(v value, n int, what string) int64 {
 
 type unsupported struct{ what string }
 type pathAbort struct{ why string }
-
-// ---------------------------------------------------------------- solver
-
-type Solver struct {
-	cmd     *exec.Cmd
-	in      io.WriteCloser
-	out     *bufio.Reader
-	Queries int
-	Time    time.Duration
-	Log     io.Writer
-}
-
-const preamble = `(set-option :produce-models true)
-(define-fun tdiv ((x Int) (y Int)) Int (ite (>= x 0) (ite (> y 0) (div x y) (- (div x (- y)))) (ite (> y 0) (- (div (- x) y)) (div (- x) (- y)))))
-(define-fun lc ((c String)) String (ite (and (= (str.len c) 1) (<= 65 (str.to_code c)) (<= (str.to_code c) 90)) (str.from_code (+ (str.to_code c) 32)) c))
-(define-fun tmod ((x Int) (y Int)) Int (- x (* y (tdiv x y))))
-`
-
-func NewSolver(bin string, args ...string) *Solver {
-	cmd := exec.Command(bin, args...)
-	in, _ := cmd.StdinPipe()
-	out, _ := cmd.StdoutPipe()
-	cmd.Stderr = cmd.Stdout
-	if err := cmd.Start(); err != nil {
-		panic(err)
-	}
-	s := &Solver{cmd: cmd, in: in, out: bufio.NewReader(out)}
-	s.send(preamble)
-	return s
-}
-
-func (s *Solver) send(t string) {
-	if s.Log != nil {
-		io.WriteString(s.Log, t+"\n")
-	}
-	io.WriteString(s.in, t+"\n")
-}
-
-func (s *Solver) readLine() string {
-	l, err := s.out.ReadString('\n')
-	if err != nil {
-		panic("solver died: " + err.Error())
-	}
-	return strings.TrimSpace(l)
-}
-
-// Check returns "sat", "unsat" or "unknown"/error text.
-func (s *Solver) Check() string {
-	t0 := time.Now()
-	s.send("(check-sat)")
-	r := s.readLine()
-	s.Queries++
-	d := time.Since(t0)
-	s.Time += d
-	if d > 2*time.Second {
-		fmt.Fprintf(os.Stderr, "slow query #%d: %v -> %s\n", s.Queries, d, r)
-	}
-	if s.Queries%2000 == 0 {
-		fmt.Fprintf(os.Stderr, "queries=%d solver=%v\n", s.Queries, s.Time)
-	}
-	return r
-}
-
-func (s *Solver) GetValue(names []string) string {
-	if len(names) == 0 {
-		return ""
-	}
-	s.send("(get-value (" + strings.Join(names, " ") + "))")
-	depth, buf := 0, ""
-	for {
-		l := s.readLine()
-		buf += l + " "
-		depth += strings.Count(l, "(") - strings.Count(l, ")")
-		if depth <= 0 {
-			return buf
-		}
-	}
-}
-
-// ---------------------------------------------------------------- explorer
-
-type Violation struct {
-	Msg   string
-	Model string
-	Trace []bool
-}
-
-type Explorer struct {
-	pc         []string
-	funcs      map[string]int
-	S          *Solver
-	prefix     []bool
-	pos        int
-	trace      []bool
-	work       [][]bool
-	consts     []string
-	nameCount  map[string]int
-	Paths      int
-	Infeasible int
-	Decisions  int
-	Violations []Violation
-	MaxSteps   int
-	steps      int
-	Covered    map[string]int
-}
-
-// X is the explorer driving the current path (one per process).
-var X *Explorer
-
-func (e *Explorer) fresh(name, sort string) *Sym {
-	n := e.nameCount[name]
-	e.nameCount[name] = n + 1
-	id := fmt.Sprintf("%s!%d", name, n)
-	e.emit("(declare-const |" + id + "| " + sort + ")")
-	e.consts = append(e.consts, "|"+id+"|")
-	return &Sym{Sort: sort, T: "|" + id + "|"}
-}
-
-func (e *Explorer) assert(t string) { e.emit("(assert " + t + ")") }
-
-// emit adds a declaration/definition/assertion to the path condition.
-func (e *Explorer) emit(l string) {
-	e.pc = append(e.pc, l)
-	if Incremental {
-		e.S.send(l)
-	}
-}
-
-// MapOrderAll makes every range over a map explore all iteration orders.
-var MapOrderAll bool
-
-var DebugDecide io.Writer
-
-func (e *Explorer) where() string {
-	if CurFrame == nil {
-		return "?"
-	}
-	return CurFrame.fn.String()
-}
-
-// CurFrame is the innermost interpreted frame (for diagnostics).
-var CurFrame *frame
-
-// Incremental selects push/pop solving (fine for the integer/Boolean
-// encoding) instead of reset-and-resend.
-var Incremental = true
-
-// query checks the path condition plus extra (may be ""), optionally
-// returning a model. Incremental mode uses push/pop; stateless mode re-sends
-// the whole path condition after (reset).
-func (e *Explorer) query(extra string, wantModel bool) (string, string) {
-	if Incremental {
-		e.S.send("(push)")
-	} else {
-		e.S.send("(reset)\n" + preamble + strings.Join(e.pc, "\n"))
-	}
-	if extra != "" {
-		e.S.send("(assert " + extra + ")")
-	}
-	r := e.S.Check()
-	m := ""
-	if r == "sat" && wantModel {
-		m = e.S.GetValue(e.consts)
-	}
-	if Incremental {
-		e.S.send("(pop)")
-	}
-	return r, m
-}
-
-func (e *Explorer) checkWith(t string) string { r, _ := e.query(t, false); return r }
-
-func neg(t string) string { return "(not " + t + ")" }
-
-func (e *Explorer) decide(c *Sym) bool {
-	e.Decisions++
-	if DebugDecide != nil && e.Paths == 3000 {
-		fmt.Fprintf(DebugDecide, "path %d decide #%d %s   @ %s\n", e.Paths, e.pos, c.T, e.where())
-	}
-	if e.pos < len(e.prefix) {
-		b := e.prefix[e.pos]
-		e.pos++
-		e.trace = append(e.trace, b)
-		if b {
-			e.assert(c.T)
-		} else {
-			e.assert(neg(c.T))
-		}
-		return b
-	}
-	rt := e.checkWith(c.T)
-	rf := e.checkWith(neg(c.T))
-	if rt != "sat" && rt != "unsat" || rf != "sat" && rf != "unsat" {
-		panic(unsupported{"solver answered " + rt + "/" + rf + " on " + c.T})
-	}
-	var b bool
-	switch {
-	case rt == "sat" && rf == "sat":
-		alt := append(append([]bool(nil), e.trace...), false)
-		e.work = append(e.work, alt)
-		b = true
-	case rt == "sat":
-		b = true
-	case rf == "sat":
-		b = false
-	default:
-		panic(pathAbort{"both branches infeasible"})
-	}
-	e.pos++
-	e.prefix = append(e.prefix, b)
-	e.trace = append(e.trace, b)
-	if b {
-		e.assert(c.T)
-	} else {
-		e.assert(neg(c.T))
-	}
-	return b
-}
-
-func (e *Explorer) assume(v value) {
-	switch v := v.(type) {
-	case bool:
-		if !v {
-			panic(pathAbort{"assume(false)"})
-		}
-	case *Sym:
-		e.assert(v.T)
-		if r := e.checkWith(""); r != "sat" {
-			if r != "unsat" {
-				panic(unsupported{"solver answered " + r})
-			}
-			panic(pathAbort{"assumption infeasible"})
-		}
-	}
-}
-
-func (e *Explorer) assertProp(v value, msg string) {
-	switch v := v.(type) {
-	case bool:
-		if !v {
-			e.violation(msg)
-		}
-	case *Sym:
-		r, m := e.query(neg(v.T), true)
-		if r == "sat" {
-			e.Violations = append(e.Violations, Violation{msg, m, append([]bool(nil), e.trace...)})
-		} else if r != "unsat" {
-			panic(unsupported{"solver answered " + r})
-		}
-		e.assert(v.T)
-	}
-}
-
-func (e *Explorer) violation(msg string) {
-	_, m := e.query("", true)
-	e.Violations = append(e.Violations, Violation{msg, m, append([]bool(nil), e.trace...)})
-}
 
 func isSymStr(v value) bool { _, ok := v.(*SymStr); return ok }
 
